@@ -182,6 +182,10 @@ def check_sweep(case):
             stub.calls.clear()
             tr = faults.run(call, PKG, fn, fault_at=k, granularity=gran, fault_base=rot(k))
             sweeps += 1
+            if not os.path.isfile(fn):
+                where = ref.lines[k - 1] if k - 1 < len(ref.lines) else ("?", "?", 0)
+                raise Violation("%s: an error at %s:%s:%d (line event %d of %d) left NO file at all where the original was"
+                                % ((case["proc"],) + tuple(where) + (k, N)), bucket="file deleted by a failed call")
             data = open(fn, "rb").read()
             cls = _classify(data, original, expected, case)
             where = ref.lines[k - 1] if k - 1 < len(ref.lines) else ("?", "?", 0)
